@@ -53,7 +53,8 @@ def finalize(m: dict, tier: str) -> list[str]:
               "invariant:to_v0", "invariant:to_v2", "answer:honest-accepted", "answer:tampered-refused", "view:agrees", "join:checked",
               "field-in-one-operand:partial_sigs", "field-in-one-operand:unknown", "field-in-one-operand:sig_hash_type",
               "field-in-one-operand:sha256_preimages", "field-in-one-operand:taproot_script_spend_signatures",
-              "field-in-one-operand:taproot_key_spend_signature", "field-in-one-operand:sig_hash_type=0", "unique-id:checked"):
+              "field-in-one-operand:taproot_key_spend_signature", "field-in-one-operand:sig_hash_type=0", "unique-id:checked", "join:concat:accepted", "join:shuffle:accepted", "join:sort:accepted",
+              "join:accepted:v0", "join:accepted:v2", "join:refused", "join:sorted-order-checked", "sort:inputs", "sort:outputs", "assert_signed:invalid-refused"):
         if not s.get(k):
             out.append(f"{k} never observed")
     for f in ("combine", "_combine_field", "_combine_optional_field", "Psbt.to_v0", "Psbt.to_v2", "assert_signatures_only", "join", "PsbtView.input"):
@@ -359,7 +360,7 @@ def shard_answers(ctx: Ctx) -> None:
     """A correct signer answer must be accepted; every single-field tampering of it must be refused."""
     from copy import deepcopy
 
-    from btclib.psbt.psbt import assert_signatures_only, new_signers
+    from btclib.psbt.psbt import assert_signatures_only, assert_signed, new_signers
     from btclib.psbt_signer import SoftwareSigner, request_signatures
     from btclib.script import ScriptPubKey
     from btclib.tx import TxOut
@@ -395,6 +396,12 @@ def shard_answers(ctx: Ctx) -> None:
         ctx.stats["answer:honest-accepted"] += 1
         ctx.case("answer:honest", (ser(request), ser(answer)))
         outcome(new_signers, request, answer)
+        # assert_signed, the same question asked of one psbt: whether it takes the honest answer is a statistic (an input
+        # that does not say what was signed is refused by design), that it refuses a signature that does not verify is judged below
+        oh = outcome(lambda: assert_signed(answer, allow_partial=True))
+        if oh[0] == "raise" and not is_lib_exc(oh[1]):
+            ctx.violation(f"answers:foreign-exception:{type(oh[1]).__name__}@{tb_origin(oh[1])}", f"assert_signed: {oh[1]!r}", case)
+        ctx.stats["assert_signed:honest-accepted" if oh[0] == "ok" else "assert_signed:honest-refused"] += 1
 
         class Scripted:
             """A dishonest device: returns a prepared psbt whatever it is asked."""
@@ -530,6 +537,15 @@ def shard_answers(ctx: Ctx) -> None:
             o2 = outcome(request_signatures, Scripted(tampered), req)
             if o2[0] == "ok":
                 ctx.violation(f"tampered-signer-answer-accepted:request_signatures:{tag}", f"request_signatures returned a device answer with {tag}", c2)
+            if tag.startswith("invalid-new-"):
+                o3 = outcome(lambda: assert_signed(tampered, allow_partial=True))
+                ctx.mon("assert_signed-invalid-signature")
+                if o3[0] == "ok":
+                    ctx.violation(f"invalid-signature-passes-assert_signed:{tag}", f"assert_signed(allow_partial=True) accepted a psbt with {tag}", c2)
+                elif not is_lib_exc(o3[1]):
+                    ctx.violation(f"answers:foreign-exception:{type(o3[1]).__name__}@{tb_origin(o3[1])}", f"assert_signed {tag}: {o3[1]!r}", c2)
+                else:
+                    ctx.stats["assert_signed:invalid-refused"] += 1
             ctx.case(f"answer:{tag}", (ser(req), ser(tampered)))
 
         # ---- a request that already carries a *finalized* input (a wallet that signed and finalized its own input before
@@ -701,37 +717,118 @@ def shard_roles(ctx: Ctx) -> None:
                 elif not all(cmp[1]):
                     what = ["lock_time", "tx", "inputs", "outputs", "prevouts"][list(cmp[1]).index(False)]
                     ctx.violation(f"view-disagrees-with-parsed-psbt:{what}", f"PsbtView.{what} differs from the parsed object after {seq}", c2)
-        # join of two disjoint PSBTs
+        # join of two or three disjoint PSBTs, concatenated, shuffled or sorted
         if it % 3 == 0:
             try:
-                a = g.build(shapes[:1], psbt_version=2)
-                b = g.build([r.choice(names)], psbt_version=2)
-                o = check_role(ctx, "join", [a.created, b.created], lambda: join([a.created, b.created], False, False, False, False), case)
+                jv = 0 if (it // 12) % 3 == 2 else 2
+                a = g.build(shapes[:1], psbt_version=jv)
+                b = g.build([r.choice(names)], psbt_version=jv)
+                ops = [a.created, b.created]
+                if r.random() < 0.3:
+                    ops.append(g.build([r.choice(names)], psbt_version=jv).created)
+                # a version 2 psbt still with its Constructor says so (BIP370 Inputs/Outputs Modifiable); one in eight does not, and is refused
+                if jv == 2 and r.random() < 0.875:
+                    for x in ops:
+                        x.tx_modifiable = 3
+                mode = ["concat", "shuffle", "sort", "sort-desc"][(it // 3) % 4]
+                key_in, key_out = _sort_keys(mode)
+                jcase = {**case, "join": mode, "operands": len(ops), "join_version": jv}
+                o = check_role(ctx, "join", ops, lambda: join(ops, False, False, mode == "shuffle", mode == "shuffle", key_in, key_out), jcase)
                 ctx.stats["join:checked"] += 1
+                ctx.stats[f"join:{mode}"] += 1
                 if o[0] == "ok":
                     j = o[1]
-                    ia = [(p.previous_tx_id, p.output_index) for p in a.created.inputs] + [(p.previous_tx_id, p.output_index) for p in b.created.inputs]
+                    ctx.stats["join:accepted"] += 1
+                    ctx.stats[f"join:accepted:v{jv}"] += 1
+                    ctx.stats[f"join:{mode}:accepted"] += 1
+                    ia = [(p.previous_tx_id, p.output_index) for x in ops for p in x.inputs]
                     ij = [(p.previous_tx_id, p.output_index) for p in j.inputs]
-                    if sorted(ia) != sorted(ij) or len(j.outputs) != len(a.created.outputs) + len(b.created.outputs):
-                        ctx.violation("join-loses-or-invents-inputs-or-outputs", "join of two disjoint PSBTs does not hold exactly their inputs and outputs", case)
-                    na = sum((pairs_inputs(x) for x in (a.created, b.created)), start=__import__("collections").Counter())
+                    if sorted(ia) != sorted(ij) or len(j.outputs) != sum(len(x.outputs) for x in ops):
+                        ctx.violation("join-loses-or-invents-inputs-or-outputs", "join of disjoint PSBTs does not hold exactly their inputs and outputs", jcase)
+                    na = sum((pairs_inputs(x) for x in ops), start=__import__("collections").Counter())
                     nj = pairs_inputs(j)
                     lost = [kv for kv in na if kv not in nj]
                     if lost:
-                        ctx.violation("join-loses-an-input-field", f"{len(lost)} input key-value pair(s) lost by join, e.g. key {lost[0][0].hex()}", case)
+                        ctx.violation("join-loses-an-input-field", f"{len(lost)} input key-value pair(s) lost by join, e.g. key {lost[0][0].hex()}", jcase)
+                    # every input map and every output map of an operand is, whole, a map of the joined psbt
+                    ctx.mon("join-maps-whole")
+                    mi = sorted(ser_in(p) for x in ops for p in x.inputs)
+                    mo = sorted(ser_out(p, x) for x in ops for p in x.outputs)
+                    if mi != sorted(ser_in(p) for p in j.inputs):
+                        ctx.violation("join-splits-or-changes-an-input-map", f"join ({mode}): the input maps of the result are not those of the operands", jcase)
+                    if mo != sorted(ser_out(p, j) for p in j.outputs):
+                        ctx.violation("join-splits-or-changes-an-output-map", f"join ({mode}): the output maps of the result are not those of the operands", jcase)
+                    if mode == "concat":
+                        if ij != ia:
+                            ctx.violation("join-concatenation-out-of-order", "join without shuffle or sort does not keep the operands' input order", jcase)
+                    elif mode.startswith("sort"):
+                        ki, ko = [key_in(p) for p in j.inputs], [key_out(p) for p in j.outputs]
+                        if ki != sorted(ki) or ko != sorted(ko):
+                            ctx.violation("join-sort-not-sorted", f"join with sort_inp/sort_out ({mode}) returns inputs or outputs out of that order", jcase)
+                        ctx.stats["join:sorted-order-checked"] += 1
+                    ctx.case(f"join:{mode}", (mode, ser(j)))
                 elif not is_lib_exc(o[1]):
-                    ctx.violation(f"join:foreign-exception:{type(o[1]).__name__}@{tb_origin(o[1])}", f"{o[1]!r}", case)
+                    ctx.violation(f"join:foreign-exception:{type(o[1]).__name__}@{tb_origin(o[1])}", f"{o[1]!r}", jcase)
                 else:
                     ctx.stats["join:refused"] += 1
             except Exception as e:  # noqa: BLE001
                 if not is_lib_exc(e):
                     raise
+        # Psbt.sort_inputs / sort_outputs (in place, on a private copy): nothing lost, nothing invented, the other side untouched
+        for src in (fl.created, cur):
+            for side in ("inputs", "outputs"):
+                mode = r.choice(["shuffle", "sort", "sort-desc"])
+                key_in, key_out = _sort_keys(mode)
+                po = outcome(lambda: Psbt.parse(ser(src)))
+                if po[0] == "raise":
+                    continue
+                p = po[1]
+                if p.version == 2 and r.random() < 0.75:
+                    p.tx_modifiable = 3
+                scase = {**case, "sort": side, "mode": mode, "psbt": ser(p).hex()[:3000]}
+                bi, bo = [ser_in(x) for x in p.inputs], [ser_out(x, p) for x in p.outputs]
+                so = outcome(lambda: p.sort_inputs(key_in) if side == "inputs" else p.sort_outputs(key_out))
+                if so[0] == "raise":
+                    if not is_lib_exc(so[1]):
+                        ctx.violation(f"sort:foreign-exception:{type(so[1]).__name__}@{tb_origin(so[1])}", f"{so[1]!r}", scase)
+                    ctx.stats["sort:refused"] += 1
+                    continue
+                ctx.mon("sort-lossless")
+                ctx.stats[f"sort:{side}"] += 1
+                ai, ao = [ser_in(x) for x in p.inputs], [ser_out(x, p) for x in p.outputs]
+                if sorted(ai) != sorted(bi) or sorted(ao) != sorted(bo):
+                    ctx.violation(f"sort-loses-or-invents-a-map:{side}", f"sort_{side} ({mode}) changed the multiset of input or output maps", scase)
+                elif (ao != bo) if side == "inputs" else (ai != bi):
+                    ctx.violation(f"sort-reorders-the-other-side:{side}", f"sort_{side} ({mode}) reordered the other side", scase)
+                if mode != "shuffle":
+                    ks = [key_in(x) for x in p.inputs] if side == "inputs" else [key_out(x) for x in p.outputs]
+                    if ks != sorted(ks):
+                        ctx.violation(f"sort-not-sorted:{side}", f"sort_{side} with an ordering function ({mode}) is not in that order", scase)
+                ctx.case(f"sort:{side}", (side, mode, ser(p)))
     reach.stop()
     reach.report(ctx)
 
 
 def ser_in(pin) -> bytes:
     return pin.serialize(psbt_version=2, check_validity=False)
+
+
+def _sort_keys(mode: str):
+    """ordering functions for join / sort_inputs / sort_outputs: an integer read off the map's own bytes."""
+    import hashlib
+
+    if not mode.startswith("sort"):
+        return None, None
+    sign = -1 if mode == "sort-desc" else 1
+
+    def key_in(pin) -> int:
+        return sign * int.from_bytes(hashlib.sha256(bytes(pin.previous_tx_id) + pin.output_index.to_bytes(4, "little")).digest()[:6], "big")
+
+    def key_out(pout) -> int:
+        return sign * int.from_bytes(hashlib.sha256(pout.serialize(psbt_version=2, check_validity=False) if _takes_version(pout)
+                                                    else pout.serialize(check_validity=False)).digest()[:6], "big")
+
+    return key_in, key_out
 
 
 def ser_out(pout, psbt) -> bytes:
